@@ -127,7 +127,9 @@ class phs_merge_then_decode_contract:
     configured with these values computes the kernel's function of its data inputs"""
     target = "snaxc.phs.decode.decode_abstract_graph"
     shapes = [dict(history=h) for h in HISTORIES]
-    quick = lambda sh: len(sh["history"]) <= 2
+    # quick: all histories of length <= 2, plus the 60 three-kernel histories over a sub-pool in which a later merge adds an
+    # alternative to a ChooseOp that was created AFTER some muxes (switch order != creation order of the decoded values)
+    quick = lambda sh: len(sh["history"]) <= 2 or (len(sh["history"]) == 3 and all(k in ("a-b", "(b-a)+c", "c-(a*b)", "(a*b)+c", "a*a") for k in sh["history"]))
     native = False
     total = True
     permissive = True
